@@ -646,3 +646,506 @@ Proof.
     cbn [erase]. rewrite He1, Hs.
     eexists _, _, s. split; [reflexivity|]. cbn [Sp.spec_tc]. rewrite Hs1. rewrite Ec. auto.
 Qed.
+
+(* ---------- converse: a tree annotated with the specification's types is Static-typed ---------- *)
+(* the specification's type of an annotated node (of its erasure) *)
+Definition spec_ty_of (G : tyenv) (A : expr) : option S.sty :=
+  match erase G A with Some e => option_map snd (Sp.spec_tc e) | None => None end.
+
+Definition sty_is (G : tyenv) (A : expr) (t : ty) : bool :=
+  match spec_ty_of G A with Some s => ty_eqb (ty_of s) t | None => false end.
+
+Definition shallow_b (op : binop) (a b : S.sty) : bool :=
+  match op with
+  | BPlus => negb (Sp.is_array_b a) || S.sty_eqb a b || S.sty_eqb a S.SEmptyArr || S.sty_eqb b S.SEmptyArr
+  | _ => true
+  end.
+
+Lemma shallow_b_ok op a b : shallow_b op a b = true -> shallow op a b.
+Proof.
+  unfold shallow_b, shallow. intros H -> Ha. rewrite Ha in H. simpl in H.
+  apply orb_true_iff in H as [H|H]; [apply orb_true_iff in H as [H|H]|]; apply sty_eqb_eq in H; auto.
+Qed.
+
+(* an argument against a parameter type: the value has exactly the parameter's type, or the parameter is
+   any and the value is wrapped (the wrapper records the value's own type), or the parameter is one of
+   the two generic built-in parameter types *)
+Section ArgAnn.
+  Context (ann : expr -> bool) (G : tyenv).
+  Definition arg_ann (p : ty) (a : expr) : bool :=
+    match p with
+    | TAny =>
+        match a with
+        | EAny a' t' => ann a' && sty_is G a' t' && negb (is_any t') && ty_small t'
+        | _ => ann a && sty_is G a TAny
+        end
+    | TGenArr => ann a && match spec_ty_of G a with Some s => Sp.is_array_b s && ty_small (ty_of s) | None => false end
+    | TGenMap => ann a && match spec_ty_of G a with Some s => Sp.is_map_b s && ty_small (ty_of s) | None => false end
+    | _ => ann a && sty_is G a p && ty_small p
+    end.
+  Fixpoint args_ann (ps : list ty) (args : list expr) {struct args} : bool :=
+    match ps, args with
+    | [], [] => true
+    | p :: ps', a :: args' => arg_ann p a && args_ann ps' args'
+    | _, _ => false
+    end.
+  Section VArgs.
+    Context (v : ty).
+    Fixpoint vargs_ann (args : list expr) : bool :=
+      match args with [] => true | a :: r => arg_ann v a && vargs_ann r end.
+  End VArgs.
+  Definition sig_ann (sg : fsig) (args : list expr) : bool :=
+    match fs_var sg with
+    | Some v => match fs_params sg with [] => vargs_ann v args | _ => false end
+    | None => args_ann (fs_params sg) args
+    end.
+End ArgAnn.
+
+(* [ann_ok]: every annotation of the tree is the type the SPECIFICATION gives the node; literals are
+   uniform (their elements all have the literal's element type: nothing was converted), concatenation
+   unifies only at the top ([shallow]), variables are those of the environment, nesting depths are
+   within the model's bound *)
+Fixpoint ann_ok (F : list funcdef) (G : tyenv) (A : expr) {struct A} : bool :=
+  let elems (u : ty) := fix go (es : list expr) : bool :=
+    match es with [] => true | x :: r => ann_ok F G x && sty_is G x u && go r end in
+  let pelems (u : ty) := fix go (ps : list (str * expr)) : bool :=
+    match ps with [] => true | (_, x) :: r => ann_ok F G x && sty_is G x u && go r end in
+  let bound (o : option expr) : bool := match o with Some x => ann_ok F G x | None => true end in
+  let arg1 (p : ty) (a : expr) : bool :=
+    match p with
+    | TAny =>
+        match a with
+        | EAny a' t' => ann_ok F G a' && sty_is G a' t' && negb (is_any t') && ty_small t'
+        | _ => ann_ok F G a && sty_is G a TAny
+        end
+    | TGenArr => ann_ok F G a && match spec_ty_of G a with Some s => Sp.is_array_b s && ty_small (ty_of s) | None => false end
+    | TGenMap => ann_ok F G a && match spec_ty_of G a with Some s => Sp.is_map_b s && ty_small (ty_of s) | None => false end
+    | _ => ann_ok F G a && sty_is G a p && ty_small p
+    end in
+  let argsf := fix go (ps : list ty) (args : list expr) {struct args} : bool :=
+    match ps, args with
+    | [], [] => true
+    | p :: ps', a :: args' => arg1 p a && go ps' args'
+    | _, _ => false
+    end in
+  let argsv (v : ty) := fix go (args : list expr) : bool :=
+    match args with [] => true | a :: r => arg1 v a && go r end in
+  match A with
+  | ENum _ | EStr _ | EBool _ => true
+  | EVar n t => negb (str_eqb n underscore) && opt_ty_eqb (slookup n G) t && ty_small t
+  | EAny _ _ => false
+  | EArr t es =>
+      match es, t with
+      | [], TEmptyArr => true
+      | _ :: _, TArr u => elems u es && ty_small t
+      | _, _ => false
+      end
+  | EMap t ps =>
+      match ps, t with
+      | [], TEmptyMap => true
+      | _ :: _, TMap u => pelems u ps && ty_small t && keys_nodup (map fst ps)
+      | _, _ => false
+      end
+  | ECall name t args =>
+      match lookup_sig F name with
+      | Some sg =>
+          ty_eqb (fs_ret sg) t && ty_value t &&
+          match fs_var sg with
+          | Some v => match fs_params sg with [] => argsv v args | _ => false end
+          | None => argsf (fs_params sg) args
+          end
+      | None => false
+      end
+  | EUn _ a => ann_ok F G a
+  | EBin op t l r =>
+      ann_ok F G l && ann_ok F G r && ty_small t && sty_is G A t &&
+      match spec_ty_of G l, spec_ty_of G r with Some a, Some b => shallow_b op a b | _, _ => false end
+  | EIndex t l i => ann_ok F G l && ann_ok F G i && ty_small t && sty_is G A t
+  | ESlice t l lo hi => ann_ok F G l && bound lo && bound hi && sty_is G A t
+  | EDot t l _ => ann_ok F G l && ty_small t && sty_is G A t
+  | EGroup a => ann_ok F G a
+  | EAssert t a => ann_ok F G a && ty_small t
+  end.
+
+Section AnnLists.
+  Context (F : list funcdef) (G : tyenv).
+  Section Elems.
+    Context (u : ty).
+    Fixpoint elems_ann (es : list expr) : bool :=
+      match es with [] => true | x :: r => ann_ok F G x && sty_is G x u && elems_ann r end.
+    Fixpoint pelems_ann (ps : list (str * expr)) : bool :=
+      match ps with [] => true | (_, x) :: r => ann_ok F G x && sty_is G x u && pelems_ann r end.
+  End Elems.
+  Definition bound_ann (o : option expr) : bool := match o with Some x => ann_ok F G x | None => true end.
+End AnnLists.
+
+Lemma ann_ok_EArr F G t es : ann_ok F G (EArr t es) =
+      match es, t with
+      | [], TEmptyArr => true
+      | _ :: _, TArr u => elems_ann F G u es && ty_small t
+      | _, _ => false
+      end.
+Proof. destruct es, t; reflexivity. Qed.
+Lemma ann_ok_EMap F G t ps : ann_ok F G (EMap t ps) =
+      match ps, t with
+      | [], TEmptyMap => true
+      | _ :: _, TMap u => pelems_ann F G u ps && ty_small t && keys_nodup (map fst ps)
+      | _, _ => false
+      end.
+Proof. destruct ps, t; reflexivity. Qed.
+Lemma ann_ok_ECall F G name t args : ann_ok F G (ECall name t args) =
+      match lookup_sig F name with
+      | Some sg => ty_eqb (fs_ret sg) t && ty_value t && sig_ann (ann_ok F G) G sg args
+      | None => false
+      end.
+Proof. reflexivity. Qed.
+Lemma ann_ok_ESlice F G t l lo hi : ann_ok F G (ESlice t l lo hi) =
+  ann_ok F G l && bound_ann F G lo && bound_ann F G hi && sty_is G (ESlice t l lo hi) t.
+Proof. reflexivity. Qed.
+
+Lemma ty_value_ty_of s : ty_value (ty_of s) = true.
+Proof. induction s; simpl; auto. Qed.
+
+Lemma sty_is_inv G A t : sty_is G A t = true ->
+  exists e k s, erase G A = Some e /\ Sp.spec_tc e = Some (k, s) /\ t = ty_of s.
+Proof.
+  unfold sty_is, spec_ty_of. destruct (erase G A) as [e|]; [|discriminate].
+  destruct (Sp.spec_tc e) as [[k s]|] eqn:Es; [|discriminate]. simpl. intros H. apply ty_eqb_true in H.
+  exists e, k, s. auto.
+Qed.
+
+Lemma sty_is_eq G A t e k s :
+  sty_is G A t = true -> erase G A = Some e -> Sp.spec_tc e = Some (k, s) -> t = ty_of s.
+Proof.
+  intros H He Hs. destruct (sty_is_inv _ _ _ H) as (e' & k' & s' & He' & Hs' & ->). congruence.
+Qed.
+
+Definition ann_typed (F : list funcdef) (G : tyenv) (A : expr) : Prop :=
+  ann_ok F G A = true -> forall e k s, erase G A = Some e -> Sp.spec_tc e = Some (k, s) ->
+  ety F G A = Some (ty_of s).
+
+Lemma ann_typed_by_sty F G A t : ann_typed F G A -> ann_ok F G A = true -> sty_is G A t = true -> ety F G A = Some t.
+Proof.
+  intros H Ha Hs. destruct (sty_is_inv _ _ _ Hs) as (e & k & s & He & Hsp & ->). eapply H; eauto.
+Qed.
+
+Lemma elems_conv F G u es :
+  Forall (ann_typed F G) es -> elems_ann F G u es = true ->
+  exists ts, etys F G es = Some ts /\ forallb (ty_eqb u) ts = true.
+Proof.
+  induction 1 as [|x es Hx _ IH]; intros H.
+  - exists []. auto.
+  - cbn [elems_ann] in H. apply andb_true_iff in H as [H H3]. apply andb_true_iff in H as [H1 H2].
+    destruct (IH H3) as (ts & Hts & Hall).
+    exists (u :: ts). cbn [etys]. rewrite (ann_typed_by_sty F G x u Hx H1 H2), Hts. simpl.
+    rewrite ty_eqb_same. auto.
+Qed.
+
+Lemma pelems_conv F G u ps :
+  Forall (fun p => ann_typed F G (snd p)) ps -> pelems_ann F G u ps = true ->
+  exists ts, etyps F G ps = Some ts /\ forallb (ty_eqb u) ts = true.
+Proof.
+  induction 1 as [|[key x] ps Hx _ IH]; intros H.
+  - exists []. auto.
+  - cbn [pelems_ann] in H. apply andb_true_iff in H as [H H3]. apply andb_true_iff in H as [H1 H2].
+    destruct (IH H3) as (ts & Hts & Hall). simpl in Hx.
+    exists (u :: ts). cbn [etyps]. rewrite (ann_typed_by_sty F G x u Hx H1 H2), Hts. simpl.
+    rewrite ty_eqb_same. auto.
+Qed.
+
+(* arguments *)
+Definition arg_typed (F : list funcdef) (G : tyenv) (a : expr) : Prop :=
+  ann_typed F G a /\ (forall a' t', a = EAny a' t' -> ann_typed F G a').
+
+Lemma arg_conv F G p a :
+  arg_typed F G a -> arg_ann (ann_ok F G) G p a = true ->
+  exists ta, ety F G a = Some ta /\ arg_ok p ta = true.
+Proof.
+  intros [H1 H2] Ha. unfold arg_ann in Ha.
+  assert (PLAINARG : forall q, ann_ok F G a && sty_is G a q && ty_small q = true -> q <> TGenArr -> q <> TGenMap ->
+             exists ta, ety F G a = Some ta /\ arg_ok q ta = true).
+  { intros q Hq N1 N2. apply andb_true_iff in Hq as [Hq Hq3]. apply andb_true_iff in Hq as [Hq1 Hq2].
+    exists q. split; [eapply ann_typed_by_sty; eauto|].
+    destruct (sty_is_inv _ _ _ Hq2) as (e & k & s & _ & _ & ->).
+    unfold arg_ok, ty_ann. rewrite ty_eqb_same, ty_value_ty_of, Hq3.
+    destruct (ty_of s); try reflexivity; congruence. }
+  destruct p; try (apply PLAINARG; [exact Ha|discriminate|discriminate]).
+  - (* any *)
+    destruct a; try (apply (PLAINARG TAny); [rewrite Ha; reflexivity|discriminate|discriminate]).
+    apply andb_true_iff in Ha as [Ha Ha4]. apply andb_true_iff in Ha as [Ha Ha3]. apply andb_true_iff in Ha as [Ha1 Ha2].
+    exists TAny. split; [|reflexivity]. cbn [ety].
+    rewrite (ann_typed_by_sty F G a t (H2 a t eq_refl) Ha1 Ha2). simpl. rewrite ty_eqb_same, Ha3. simpl.
+    destruct (sty_is_inv _ _ _ Ha2) as (e & k & s & _ & _ & ->). unfold ty_ann. rewrite ty_value_ty_of, Ha4. reflexivity.
+  - (* generic array *)
+    apply andb_true_iff in Ha as [Ha1 Ha2]. unfold spec_ty_of in Ha2.
+    destruct (erase G a) as [e|] eqn:He; [|discriminate].
+    destruct (Sp.spec_tc e) as [[k s]|] eqn:Hs; [|discriminate]. simpl in Ha2.
+    apply andb_true_iff in Ha2 as [Ha2 Ha3].
+    exists (ty_of s). split; [eapply H1; eauto|].
+    unfold arg_ok, ty_ann. destruct s; try discriminate; simpl in *; rewrite ?ty_value_ty_of, ?Ha3; reflexivity.
+  - (* generic map *)
+    apply andb_true_iff in Ha as [Ha1 Ha2]. unfold spec_ty_of in Ha2.
+    destruct (erase G a) as [e|] eqn:He; [|discriminate].
+    destruct (Sp.spec_tc e) as [[k s]|] eqn:Hs; [|discriminate]. simpl in Ha2.
+    apply andb_true_iff in Ha2 as [Ha2 Ha3].
+    exists (ty_of s). split; [eapply H1; eauto|].
+    unfold arg_ok, ty_ann. destruct s; try discriminate; simpl in *; rewrite ?ty_value_ty_of, ?Ha3; reflexivity.
+Qed.
+
+Lemma args_conv F G : forall args ps,
+  Forall (arg_typed F G) args -> args_ann (ann_ok F G) G ps args = true ->
+  exists ts, etys F G args = Some ts /\ args_ok ps None ts = true.
+Proof.
+  induction args as [|a args IH]; intros ps HF Ha; destruct ps as [|p ps]; simpl in Ha; try discriminate.
+  - exists []. auto.
+  - inversion HF; subst. apply andb_true_iff in Ha as [Ha1 Ha2].
+    destruct (arg_conv F G p a H1 Ha1) as (ta & Hta & Hok).
+    destruct (IH ps H2 Ha2) as (ts & Hts & Hoks).
+    exists (ta :: ts). cbn [etys]. rewrite Hta, Hts. simpl. rewrite Hok, Hoks. auto.
+Qed.
+
+Lemma vargs_conv F G v : forall args,
+  Forall (arg_typed F G) args -> vargs_ann (ann_ok F G) G v args = true ->
+  exists ts, etys F G args = Some ts /\ forallb (arg_ok v) ts = true.
+Proof.
+  induction args as [|a args IH]; intros HF Ha; simpl in Ha.
+  - exists []. auto.
+  - inversion HF; subst. apply andb_true_iff in Ha as [Ha1 Ha2].
+    destruct (arg_conv F G v a H1 Ha1) as (ta & Hta & Hok).
+    destruct (IH H2 Ha2) as (ts & Hts & Hoks).
+    exists (ta :: ts). cbn [etys]. rewrite Hta, Hts. simpl. rewrite Hok, Hoks. auto.
+Qed.
+
+Lemma erases_inv G : forall es el, erases G es = Some el -> List.length el = List.length es.
+Proof.
+  induction es as [|x es IH]; intros el H; simpl in H; [inversion H; reflexivity|].
+  destruct (erase G x), (erases G es) eqn:E; try discriminate. inversion H; subst. simpl. f_equal. auto.
+Qed.
+
+Lemma elems_same F G t : forall es el ks,
+  elems_ann F G t es = true -> erases G es = Some el -> Sp.all_some (map Sp.spec_tc el) = Some ks ->
+  Forall (fun y => ty_of (snd y) = t) ks.
+Proof.
+  induction es as [|x es IH]; intros el ks Ha He Hk.
+  - simpl in He. inversion He; subst. simpl in Hk. inversion Hk; constructor.
+  - cbn [elems_ann] in Ha. apply andb_true_iff in Ha as [Ha Ha3]. apply andb_true_iff in Ha as [_ Ha2].
+    cbn [erases] in He. destruct (erase G x) as [e|] eqn:Ex; [|discriminate].
+    destruct (erases G es) as [el'|] eqn:Ees; [|discriminate]. inversion He; subst.
+    simpl in Hk. destruct (Sp.spec_tc e) as [[k st]|] eqn:Est; [|discriminate].
+    destruct (Sp.all_some (map Sp.spec_tc el')) as [ks'|] eqn:Eks; [|discriminate]. inversion Hk; subst.
+    constructor; [simpl; symmetry; eapply sty_is_eq; eauto|eauto].
+Qed.
+
+Lemma pelems_same F G t : forall ps el ks,
+  pelems_ann F G t ps = true -> erasep G ps = Some el -> Sp.all_some (map Sp.spec_tc el) = Some ks ->
+  Forall (fun y => ty_of (snd y) = t) ks.
+Proof.
+  induction ps as [|[key x] ps IH]; intros el ks Ha He Hk.
+  - simpl in He. inversion He; subst. simpl in Hk. inversion Hk; constructor.
+  - cbn [pelems_ann] in Ha. apply andb_true_iff in Ha as [Ha Ha3]. apply andb_true_iff in Ha as [_ Ha2].
+    cbn [erasep] in He. destruct (erase G x) as [e|] eqn:Ex; [|discriminate].
+    destruct (erasep G ps) as [el'|] eqn:Ees; [|discriminate]. inversion He; subst.
+    simpl in Hk. destruct (Sp.spec_tc e) as [[k st]|] eqn:Est; [|discriminate].
+    destruct (Sp.all_some (map Sp.spec_tc el')) as [ks'|] eqn:Eks; [|discriminate]. inversion Hk; subst.
+    constructor; [simpl; symmetry; eapply sty_is_eq; eauto|eauto].
+Qed.
+
+Lemma join_same (t : ty) y ks : Forall (fun z : Sp.kind * S.sty => ty_of (snd z) = t) (y :: ks) ->
+  ty_of (snd (fold_left Sp.sjoin ks y)) = t.
+Proof.
+  intros H. inversion H; subst. rewrite fold_sjoin_same with (u := snd y); auto.
+  eapply Forall_impl; [|exact H3]. cbv beta. intros z Hz. apply ty_of_inj. congruence.
+Qed.
+
+Lemma all_some_len {A} : forall (l : list (option A)) ks, Sp.all_some l = Some ks -> List.length ks = List.length l.
+Proof.
+  induction l as [|[x|] l IH]; intros ks H; simpl in H; try discriminate; [inversion H; reflexivity|].
+  destruct (Sp.all_some l); [|discriminate]. inversion H; subst. simpl. f_equal. auto.
+Qed.
+
+Lemma erasep_inv G : forall ps el, erasep G ps = Some el -> List.length el = List.length ps.
+Proof.
+  induction ps as [|[key x] ps IH]; intros el H; simpl in H; [inversion H; reflexivity|].
+  destruct (erase G x), (erasep G ps) eqn:E; try discriminate. inversion H; subst. simpl. f_equal. auto.
+Qed.
+
+Lemma nonempty_ks {X} (n : nat) (el : list S.expr) (l : list X) :
+  List.length el = List.length l -> l <> [] -> Sp.all_some (map Sp.spec_tc el) = Some [] -> False.
+Proof.
+  intros Hl Hn H. apply all_some_len in H. rewrite map_length in H. simpl in H.
+  destruct l; [congruence|]. rewrite <- H in Hl. discriminate.
+Qed.
+
+Definition sbound (o : option S.expr) : option Sp.kind :=
+  match o with
+  | None => Some Sp.KConst
+  | Some x => match Sp.spec_tc x with Some (k', S.SNum) => Some k' | _ => None end
+  end.
+
+Lemma spec_tc_ESlice l s e' : Sp.spec_tc (S.ESlice l s e') =
+  match Sp.spec_tc l with
+  | Some (k, a) =>
+      match sbound s, sbound e', Sp.slice_type_s a with
+      | Some k1, Some k2, Some t => Some (Sp.kjoin k (Sp.kjoin k1 k2), t)
+      | _, _, _ => None
+      end
+  | None => None
+  end.
+Proof. reflexivity. Qed.
+
+Theorem spec_to_static F G : forall A, arg_typed F G A.
+Proof.
+  induction A using expr_ind'; (split; [|try (intros a' t' Heq; discriminate Heq)]).
+  - intros _ e k st He Hs. inversion He; subst. inversion Hs; subst. reflexivity.
+  - intros _ e k st He Hs. inversion He; subst. inversion Hs; subst. reflexivity.
+  - intros _ e k st He Hs. inversion He; subst. inversion Hs; subst. reflexivity.
+  - (* variable *)
+    intros Ha e k st He Hs. cbn [ann_ok] in Ha. cbn [erase] in He.
+    apply andb_true_iff in Ha as [Ha Ha3]. apply andb_true_iff in Ha as [Ha1 Ha2].
+    pose proof (opt_ty_eqb_some _ _ Ha2) as Hl. rewrite Hl in He.
+    destruct (sty_of t) as [s0|] eqn:Est; [|discriminate]. inversion He; subst. inversion Hs; subst.
+    pose proof (ty_of_sty_of _ _ Est) as Et. subst t.
+    cbn [ety]. rewrite Ha1, Ha2. unfold ty_ann. rewrite ty_value_ty_of, Ha3. reflexivity.
+  - intros Ha; discriminate.
+  - (* the operand of an Any wrapper *)
+    intros a' t' Heq. inversion Heq; subst. apply IHA.
+  - (* array literal *)
+    intros Ha e k st He Hs. rewrite ann_ok_EArr in Ha. rewrite erase_EArr in He. rewrite ety_EArr.
+    assert (HF : Forall (ann_typed F G) es) by (eapply Forall_impl; [|exact H]; intros a [Ha' _]; exact Ha').
+    destruct es as [|x es].
+    + destruct t; try discriminate. simpl in He. inversion He; subst. inversion Hs; subst. reflexivity.
+    + destruct t; try discriminate. apply andb_true_iff in Ha as [Ha1 Ha2].
+      destruct (elems_conv F G t (x :: es) HF Ha1) as (ts & Hts & Hall). rewrite Hts, Hall.
+      destruct (erases G (x :: es)) as [el|] eqn:Eel; [|discriminate]. simpl in He. inversion He; subst.
+      cbn [Sp.spec_tc] in Hs.
+      destruct (Sp.all_some (map Sp.spec_tc el)) as [ks|] eqn:Eks; [|discriminate].
+      pose proof (elems_same F G t _ _ _ Ha1 Eel Eks) as Hsame.
+      destruct ks as [|y ks]; [exfalso; eapply (nonempty_ks 0); [eapply erases_inv; eauto|discriminate|eauto]|]. injection Hs as <- <-.
+      simpl ty_of. rewrite (join_same t y ks Hsame).
+      assert (Hv : ty_value t = true) by (inversion Hsame; subst; apply ty_value_ty_of).
+      unfold ty_ann. simpl ty_value. rewrite Hv, Ha2. reflexivity.
+  - (* map literal *)
+    intros Ha e k st He Hs. rewrite ann_ok_EMap in Ha. rewrite erase_EMap in He. rewrite ety_EMap.
+    assert (HF : Forall (fun p => ann_typed F G (snd p)) ps) by (eapply Forall_impl; [|exact H]; intros a [Ha' _]; exact Ha').
+    destruct ps as [|p ps].
+    + destruct t; try discriminate. simpl in He. inversion He; subst. inversion Hs; subst. reflexivity.
+    + destruct t; try discriminate. apply andb_true_iff in Ha as [Ha Ha3]. apply andb_true_iff in Ha as [Ha1 Ha2].
+      destruct (pelems_conv F G t (p :: ps) HF Ha1) as (ts & Hts & Hall). rewrite Hts, Hall.
+      destruct (erasep G (p :: ps)) as [el|] eqn:Eel; [|discriminate]. simpl in He. inversion He; subst.
+      cbn [Sp.spec_tc] in Hs.
+      destruct (Sp.all_some (map Sp.spec_tc el)) as [ks|] eqn:Eks; [|discriminate].
+      pose proof (pelems_same F G t _ _ _ Ha1 Eel Eks) as Hsame.
+      destruct ks as [|y ks]; [exfalso; eapply (nonempty_ks 0); [eapply erasep_inv; eauto|discriminate|eauto]|]. injection Hs as <- <-.
+      simpl ty_of. rewrite (join_same t y ks Hsame).
+      assert (Hv : ty_value t = true) by (inversion Hsame; subst; apply ty_value_ty_of).
+      unfold ty_ann. simpl ty_value. rewrite Hv, Ha2, Ha3. reflexivity.
+  - (* call *)
+    intros Ha e k st He Hs. rewrite ann_ok_ECall in Ha. rewrite ety_ECall. cbn [erase] in He.
+    destruct (lookup_sig F n) as [sg|]; [|discriminate].
+    apply andb_true_iff in Ha as [Ha Ha3]. apply andb_true_iff in Ha as [Ha1 Ha2].
+    destruct (sty_of t) as [s0|] eqn:Est; [|discriminate]. inversion He; subst. inversion Hs; subst.
+    rewrite (ty_of_sty_of _ _ Est).
+    unfold sig_ann in Ha3. unfold sig_args_ok.
+    destruct (fs_var sg) as [v|].
+    + destruct (fs_params sg); [|discriminate].
+      destruct (vargs_conv F G v args H Ha3) as (ts & Hts & Hok). rewrite Hts, Hok, Ha1. reflexivity.
+    + destruct (args_conv F G args (fs_params sg) H Ha3) as (ts & Hts & Hok). rewrite Hts, Hok, Ha1. reflexivity.
+  - (* unary *)
+    intros Ha e k st He Hs. cbn [ann_ok] in Ha. cbn [erase] in He. destruct IHA as [IHA _].
+    destruct (erase G A) as [ea|] eqn:Ea; [|discriminate]. simpl in He. inversion He; subst.
+    cbn [Sp.spec_tc] in Hs. destruct (Sp.spec_tc ea) as [[ka sa]|] eqn:Esa; [|discriminate].
+    cbn [ety]. rewrite (IHA Ha _ _ _ Ea Esa).
+    destruct op, sa; simpl in Hs; try discriminate; inversion Hs; subst; reflexivity.
+  - (* binary *)
+    intros Ha e k st He Hs. cbn [ann_ok] in Ha. cbn [erase] in He.
+    destruct IHA1 as [IHA1 _]. destruct IHA2 as [IHA2 _].
+    apply andb_true_iff in Ha as [Ha Ha5]. apply andb_true_iff in Ha as [Ha Ha4].
+    apply andb_true_iff in Ha as [Ha Ha3]. apply andb_true_iff in Ha as [Ha1 Ha2].
+    unfold spec_ty_of in Ha5.
+    destruct (erase G A1) as [e1|] eqn:E1; [|discriminate]. destruct (erase G A2) as [e2|] eqn:E2; [|discriminate].
+    inversion He; subst. cbn [Sp.spec_tc] in Hs.
+    destruct (Sp.spec_tc e1) as [[k1 s1]|] eqn:Es1; [|discriminate].
+    destruct (Sp.spec_tc e2) as [[k2 s2]|] eqn:Es2; [|discriminate]. simpl in Ha5.
+    destruct (Sp.op_type (binop_of op) s1 s2) as [so|] eqn:Eop; inversion Hs; subst.
+    assert (Et : t = ty_of st).
+    { eapply sty_is_eq; [exact Ha4| |].
+      - cbn [erase]. rewrite E1, E2. reflexivity.
+      - cbn [Sp.spec_tc]. rewrite Es1, Es2, Eop. reflexivity. }
+    subst t.
+    cbn [ety]. rewrite (IHA1 Ha1 _ _ _ E1 Es1), (IHA2 Ha2 _ _ _ E2 Es2).
+    pose proof (op_type_static op s1 s2 st Eop (shallow_b_ok _ _ _ Ha5)) as Hok. unfold bin_ok in Hok.
+    rewrite Hok. unfold ty_ann. rewrite ty_value_ty_of, Ha3. reflexivity.
+  - (* index *)
+    intros Ha e k st He Hs. cbn [ann_ok] in Ha. cbn [erase] in He.
+    destruct IHA1 as [IHA1 _]. destruct IHA2 as [IHA2 _].
+    apply andb_true_iff in Ha as [Ha Ha4]. apply andb_true_iff in Ha as [Ha Ha3]. apply andb_true_iff in Ha as [Ha1 Ha2].
+    destruct (erase G A1) as [e1|] eqn:E1; [|discriminate]. destruct (erase G A2) as [e2|] eqn:E2; [|discriminate].
+    inversion He; subst. cbn [Sp.spec_tc] in Hs.
+    destruct (Sp.spec_tc e1) as [[k1 s1]|] eqn:Es1; [|discriminate].
+    destruct (Sp.spec_tc e2) as [[k2 s2]|] eqn:Es2; [|discriminate].
+    destruct (Sp.index_type_s s1 s2) as [so|] eqn:Eop; inversion Hs; subst.
+    assert (Et : t = ty_of st).
+    { eapply sty_is_eq; [exact Ha4| |].
+      - cbn [erase]. rewrite E1, E2. reflexivity.
+      - cbn [Sp.spec_tc]. rewrite Es1, Es2, Eop. reflexivity. }
+    subst t.
+    cbn [ety]. rewrite (IHA1 Ha1 _ _ _ E1 Es1), (IHA2 Ha2 _ _ _ E2 Es2).
+    destruct s1, s2; simpl in Eop; try discriminate; inversion Eop; subst; simpl;
+      unfold ty_ann; rewrite ?ty_eqb_same, ?ty_value_ty_of, ?Ha3; reflexivity.
+  - (* slice *)
+    intros Ha e k st He Hs. rewrite ann_ok_ESlice in Ha. rewrite erase_ESlice in He. rewrite ety_ESlice.
+    destruct IHA as [IHA _].
+    apply andb_true_iff in Ha as [Ha Ha4]. apply andb_true_iff in Ha as [Ha Ha3]. apply andb_true_iff in Ha as [Ha1 Ha2].
+    destruct (erase G A) as [e1|] eqn:E1; [|discriminate].
+    destruct (eraseo G lo) as [elo|] eqn:Elo; [|discriminate]. destruct (eraseo G hi) as [ehi|] eqn:Ehi; [|discriminate].
+    inversion He; subst. rewrite spec_tc_ESlice in Hs.
+    destruct (Sp.spec_tc e1) as [[k1 s1]|] eqn:Es1; [|discriminate].
+    assert (BD : forall o eo, (forall x, o = Some x -> arg_typed F G x) -> bound_ann F G o = true -> eraseo G o = Some eo ->
+               sbound eo <> None -> etyo F G o = true).
+    { intros o eo Ho Hb Heo Hne. destruct o as [x|]; [|reflexivity]. simpl in *.
+      destruct (erase G x) as [ex|] eqn:Ex; [|discriminate]. inversion Heo; subst. simpl in Hne.
+      destruct (Sp.spec_tc ex) as [[kx sx]|] eqn:Esx; [|congruence].
+      destruct sx; try congruence. destruct (Ho x eq_refl) as [Hx _].
+      rewrite (Hx Hb _ _ _ Ex Esx). reflexivity. }
+    destruct (sbound elo) as [kb1|] eqn:B1; [|discriminate].
+    destruct (sbound ehi) as [kb2|] eqn:B2; [|discriminate].
+    destruct (Sp.slice_type_s s1) as [so|] eqn:Esl; [|discriminate].
+    inversion Hs; subst.
+    assert (Et : t = ty_of st).
+    { eapply sty_is_eq; [exact Ha4| |].
+      - rewrite erase_ESlice, E1, Elo, Ehi. reflexivity.
+      - rewrite spec_tc_ESlice, Es1, B1, B2, Esl. reflexivity. }
+    subst t.
+    rewrite (IHA Ha1 _ _ _ E1 Es1).
+    rewrite (BD lo elo H Ha2 Elo) by (rewrite B1; discriminate).
+    rewrite (BD hi ehi H0 Ha3 Ehi) by (rewrite B2; discriminate).
+    destruct s1; simpl in Esl; try discriminate; inversion Esl; subst; simpl; rewrite ?ty_eqb_same; reflexivity.
+  - (* dot *)
+    rename k into key. intros Ha e k st He Hs. cbn [ann_ok] in Ha. cbn [erase] in He. destruct IHA as [IHA _].
+    apply andb_true_iff in Ha as [Ha Ha3]. apply andb_true_iff in Ha as [Ha1 Ha2].
+    destruct (erase G A) as [e1|] eqn:E1; [|discriminate]. simpl in He. inversion He; subst.
+    cbn [Sp.spec_tc] in Hs. destruct (Sp.spec_tc e1) as [[k1 s1]|] eqn:Es1; [|discriminate].
+    destruct (Sp.dot_type_s s1) as [so|] eqn:Eop; inversion Hs; subst.
+    assert (Et : t = ty_of st).
+    { eapply sty_is_eq; [exact Ha3| |].
+      - cbn [erase]. rewrite E1. reflexivity.
+      - cbn [Sp.spec_tc]. rewrite Es1, Eop. reflexivity. }
+    subst t. cbn [ety]. rewrite (IHA Ha1 _ _ _ E1 Es1).
+    destruct s1; simpl in Eop; try discriminate; inversion Eop; subst; simpl.
+    unfold ty_ann. rewrite ty_eqb_same, ty_value_ty_of, Ha2. reflexivity.
+  - (* group *)
+    intros Ha e k st He Hs. cbn [ann_ok] in Ha. cbn [erase] in He. destruct IHA as [IHA _].
+    destruct (erase G A) as [e1|] eqn:E1; [|discriminate]. simpl in He. inversion He; subst.
+    cbn [Sp.spec_tc] in Hs. cbn [ety]. eapply IHA; eauto.
+  - (* type assertion *)
+    intros Ha e k st He Hs. cbn [ann_ok] in Ha. cbn [erase] in He. destruct IHA as [IHA _].
+    apply andb_true_iff in Ha as [Ha1 Ha2].
+    destruct (erase G A) as [e1|] eqn:E1; [|discriminate]. destruct (sty_of t) as [s0|] eqn:Est; [|discriminate].
+    inversion He; subst. cbn [Sp.spec_tc] in Hs.
+    destruct (Sp.spec_tc e1) as [[k1 s1]|] eqn:Es1; [|discriminate].
+    destruct s1; try discriminate.
+    destruct (negb (S.sty_eqb s0 S.SAny) && S.closed s0) eqn:Ec; inversion Hs; subst.
+    pose proof (ty_of_sty_of _ _ Est) as Et. subst t.
+    cbn [ety]. rewrite (IHA Ha1 _ _ _ E1 Es1). simpl.
+    rewrite assert_spec, Ec, Ha2. reflexivity.
+Qed.
